@@ -136,7 +136,7 @@ func TestCheck(t *testing.T) {
 		lcs[i], mss[i] = ev.NewLocal(), move.NewStore()
 	}
 	corpus := gen.Corpus()
-	n := r.N(100000, 1000000)
+	n := r.N(100000, 4000000)
 	ev.Parallel(n, func(wk, i int) {
 		lc := lcs[wk]
 		rng := r.RNG("c05", i)
@@ -188,7 +188,7 @@ func TestCheck(t *testing.T) {
 		r.Merge(lc)
 	})
 	// end to end: every 4/5-character move string through `position fen F moves X` then `fen`
-	nu := r.N(160, 1600)
+	nu := r.N(160, 6400)
 	ev.Parallel(nu, func(wk, i int) {
 		rng := r.RNG("c05-uci", i)
 		p := gen.AnyPos(rng)
